@@ -454,7 +454,8 @@ def _variants(node: Node, fname: str, kind: str, info: Any, idx: "Index") -> Lis
             for dn in _donor_nodes(idx, dcls):
                 if dn.obj is obj or any(p is dn.obj for p in node.parents):
                     continue
-                if _has_context_fields(dn.obj) and context_signature(dn.parents) != tsig:
+                if _has_context_fields(dn.obj) and (type(obj).__name__, fname) not in _FIXUP_FIELDS \
+                        and context_signature(dn.parents) != tsig:
                     # the donor carries values its parser received from the surrounding element
                     # (data types); it only fits below an owner with the same context
                     continue
@@ -640,6 +641,10 @@ def _concrete_value(node: Node, fname: str, op: dict, donor_loader) -> Any:
             return type(cur)([dn.obj])
         return dn.obj
     raise AssertionError(f"unknown op {op}")
+
+
+_FIXUP_FIELDS = {("CompuScale", "compu_inverse_value"), ("CompuScale", "compu_const"),
+                 ("DataObjectProperty", "internal_constr"), ("DataObjectProperty", "physical_constr")}
 
 
 def _fixup_donor_context(owner: Any, fname: str, donor: Any) -> None:
